@@ -1,4 +1,4 @@
-import SakuraVerif.Lemmas.DumpWalk
+import SakuraVerif.Lemmas.DumpFile
 import SakuraVerif.Lemmas.Dump
 /-! # C20 — the dump lists every event at its true position
 
@@ -87,6 +87,39 @@ theorem C20_dump_loop_terminates (b : List Nat) (tb pos E time : Nat) (info : In
     (hf : b.length - pos + 1 ≤ f) :
     trackGo b tb f pos E time info acc = trackGo b tb (b.length - pos + 1) pos E time info acc :=
   trackGo_fuel_stable b tb (b.length - pos) pos E time info acc f _ (Nat.le_refl _) hf (Nat.le_refl _)
+
+open Sakura.Dt in
+/-- **dump ∘ generate** — the property for the whole pipeline of models: for every song whose events the writer accepts, any number
+    of tracks, the literal dump of the bytes the writer model produces is the four header lines, then per track two header lines and
+    exactly one line per written message, in file order, at the running sum of the deltas under the signature in force, kind and
+    values as written, End-of-Track last.  (The writer model is tied to `midi::generate` by the C01/C02 streams, the dump model to
+    `midi::dump_midi` by `dumptext`.) -/
+theorem C20_dump_generate (tb : Nat) (tracks : List (List Event)) (htb : tb < 65536) (hn : tracks.length < 65536)
+    (hv : ∀ es ∈ tracks, ∀ e ∈ es, DValid e)
+    (hsz : ∀ es ∈ tracks, total (writtenTrack es) < 18446744073709551616 ∧ (genTrack (normalize es)).length < 4294967296) :
+    dump (generateSong (tb : Int) (-1) tracks) =
+      ["// ----- MIDI DUMP DATA -----", "/// [MThd] midi format=1", s!"/// [MThd] track_count={tracks.length}", s!"TIMEBASE={tb}"] ++
+        trackLinesAll tb {} 0 (tracks.map writtenTrack) :=
+  dump_generate tb tracks htb hn hv hsz
+
+-- non-vacuity for `C20_dump_generate`: a two-track song (conductor track with tempo and time signature; a note, a bend, a SysEx)
+open Sakura.Dt in
+def demoSong : List (List Event) :=
+  [[⟨.metaEv, 0, 0, 255, 0x51, 3, [7, 161, 32]⟩, ⟨.metaEv, 0, 0, 255, 0x58, 4, [3, 3, 24, 8]⟩],
+   [⟨.noteOn, 96, 1, 60, 90, 100, []⟩, ⟨.pitchBend, 0, 1, 8292, 0, 0, []⟩, ⟨.sysex, 10, 0, 0, 0, 0, [0xF0, 0x41, 0x10, 0xF7]⟩,
+    ⟨.pitchBendRange, 20, 1, 12, 0, 0, []⟩]]
+
+open Sakura.Dt in
+example : ∀ es ∈ demoSong, ∀ e ∈ es, DValid e := by
+  intro es hes e he
+  simp only [demoSong, List.mem_cons, List.not_mem_nil, or_false] at hes
+  rcases hes with rfl | rfl <;> simp only [List.mem_cons, List.not_mem_nil, or_false] at he
+  · rcases he with rfl | rfl <;> (simp only [DValid, Spec.Valid]; decide)
+  · rcases he with rfl | rfl | rfl | rfl
+    · simp only [DValid, Spec.Valid]; decide
+    · simp only [DValid, Spec.Valid]; decide
+    · refine ⟨by simp only [Spec.Valid]; decide, [0x41, 0x10], rfl, by decide, by decide⟩
+    · simp only [DValid, Spec.Valid]; decide
 
 -- non-vacuity: a track with a time signature, a program change, a bend, a note, a text meta, a SysEx and End-of-Track
 open Sakura.Dt in
